@@ -110,8 +110,8 @@ def guard_rules(facts, res, rule2="C16-2", rule3="C16-3"):
             if dep:
                 res.add(Finding(rule3, key, "%s: a guard depends on `count` (%s): a count running past the end must be clipped, "
                                 "not refused" % (f["path"], [(x["lhs"], x["op"], x["rhs"]) for x in dep]), f["file"], dep[0]["line"], {}))
-    if st2["instances"] < 11:
-        raise BrokenCheck("%s: %d methods (floor 11)" % (rule2, st2["instances"]))
+    if st2["instances"] < 6:
+        raise BrokenCheck("%s: %d methods (floor 6)" % (rule2, st2["instances"]))
     # merged text (read only): substring_data guard on chars().count()
     f = facts.fn("xml_dom::<XmlExpandedText as CharacterData>::substring_data")
     blocks = facts.blocks(f)
@@ -146,8 +146,8 @@ def run(facts, tier):
         "the new node after self.")
     res.assumptions = ["resulting strings are not computed", "unwind edges ignored"]
     roots = entries.c16(facts)
-    if len(roots) < 20:
-        raise BrokenCheck("C16: %d entry points (floor 20)" % len(roots))
+    if len(roots) < 12:
+        raise BrokenCheck("C16: %d entry points (floor 12)" % len(roots))
     reach, parent = facts.reachable(roots)
     # ---- C16-1
     st1 = res.rule("C16-1", instances=0, functions=0)
